@@ -64,3 +64,27 @@ package netann
 //@   ensures result == nil ==> ret(HasMaxHtlc) && msg.HtlcMaximumMsat != 0 && msg.HtlcMaximumMsat >= msg.HtlcMinimumMsat &&
 //@           (capacity == 0 || msg.HtlcMaximumMsat <= capacity * 1000)
 //@   site call HasMaxHtlc: assert arg(0) == msg.MessageFlags
+//@
+//@ // ---- node announcements: accepted only if the signature by the announced node key verifies over
+//@ // ---- the double hash of exactly the announcement's signed data, and the fields are consistent
+//@ func ValidateNodeAnn
+//@   props C20
+//@   ensures result == nil ==> ret(ValidateNodeAnnFields) == nil && ret(ValidateNodeAnnSignature) == nil
+//@   site call ValidateNodeAnnFields: assert arg(a) == a
+//@   site call ValidateNodeAnnSignature: assert arg(a) == a && ret(ValidateNodeAnnFields) == nil
+//@
+//@ func ValidateNodeAnnSignature
+//@   props C20
+//@   site call DataToSign: assert arg(0) == a
+//@   site call ToSignature: assert arg(0) == addr(a.Signature)
+//@   site call ParsePubKey: assert arg(0) == sliceof(a.NodeID)
+//@   site call DoubleHashB: assert arg(0) == retn(DataToSign, 0) && retn(DataToSign, 1) == nil
+//@   site call Verify: assert arg(0) == retn(ToSignature, 0) && retn(ToSignature, 1) == nil &&
+//@        arg(1) == ret(DoubleHashB) && arg(2) == retn(ParsePubKey, 0) && retn(ParsePubKey, 1) == nil
+//@   site return nil: assert ret(Verify)
+//@
+//@ func ValidateNodeAnnFields
+//@   props C20
+//@   loop * havoc
+//@   site call ValidateDNSAddr: assert arg(0) == dnsAddr.Hostname && arg(1) == dnsAddr.Port
+//@   loop 0 step (prev(hasDNSAddr) ==> hasDNSAddr && !typeis(addr, *lnwire.DNSAddress)) && (typeis(addr, *lnwire.DNSAddress) ==> hasDNSAddr && called(ValidateDNSAddr))
